@@ -221,6 +221,8 @@ class Unit:
             return z3.ArraySort(I, B)
         if key.startswith("g:"):
             return z3.ArraySort(I, sort_of(ty) if ty is not None else I)
+        if key.startswith("dv:"):           # dict values: dict object -> key object -> value
+            return z3.ArraySort(I, z3.ArraySort(I, sort_of(ty)))
         raise Unsupported(key)
 
     def array_axioms(self, key, A, nx, ty):
@@ -231,7 +233,7 @@ class Unit:
             out.append(z3.ForAll([r], z3.Implies(z3.And(r > 0, r < nx), z3.And(A[r] >= 0, A[r] < nx)), qid=QID(), patterns=[A[r]]))
         elif key.startswith("len:"):
             out.append(z3.ForAll([r], A[r] >= 0, qid=QID(), patterns=[A[r]]))
-        elif key.startswith("elt:") and reflike(ty):
+        elif (key.startswith("elt:") or key.startswith("dv:")) and reflike(ty):
             out.append(z3.ForAll([r, k], z3.Implies(z3.And(r > 0, r < nx), z3.And(A[r][k] >= 0, A[r][k] < nx)),
                                  qid=QID(), patterns=[A[r][k]]))
         return out
